@@ -16,6 +16,29 @@ Section "aggregate_rdm": Aggregate.get_thermal_ReducedDensityMatrix (the OpenSys
     ground-state energies) over system x e0 x bath x temperature, same request contexts.
 Section "molecule": Molecule.get_thermal_ReducedDensityMatrix over
     molecule x ground-state energy x temperature, same request contexts.
+Sections "aggregate_history" / "aggregate_rdm_history": OBJECT HISTORIES.  The aggregate is
+    not fresh: a sequence of operations was performed on the SAME object after build() and
+    before the request.  Alphabet HIST_OPS of prior operations: diag (Aggregate.diagonalize),
+    dm_thermal / dm_tes_weak / dm_tes_strong / dm_impulsive (an earlier get_DensityMatrix of
+    every condition type, at ANOTHER temperature), rdm (get_thermal_ReducedDensityMatrix),
+    abs (linear absorption spectrum: AbsSpectrumCalculator bootstrap + calculate),
+    rt_redfield / rt_foerster / rt_combined (get_RelaxationTensor: standard Redfield, standard
+    Foerster, combined Redfield-Foerster with a coupling cutoff), rebuild (Aggregate.rebuild).
+    Full product system x bath x temperature x temperature source x condition type
+    (get_DensityMatrix; resp. get_thermal_ReducedDensityMatrix) x relaxation_hamiltonian x
+    ALL histories up to the tier's length (quick: every single operation; thorough: every
+    single operation and every ordered pair, repetitions included) x every request context;
+    operations the library does not support for a system (no bath, vibrational modes,
+    two-exciton band) are left out of that system's alphabet.  Checked: every oracle below
+    (the reference takes the Hamiltonian read right after build(), BEFORE the history), and
+ history    |rho_after_history - rho_fresh| <= 1e-10 + expm1(128*eps*max|H|/kT): the state
+            handed out equals the one an identical, never touched aggregate hands out for the
+            same request in the same context (not at T = 0 with a degenerate lowest level;
+            impulsive_excitation, whose state is built from |d_ab| in the basis of the request
+            and therefore depends on the arbitrary signs of that basis' vectors, only for
+            requests made outside or in the eigenbasis of X, where both objects get
+            bit-identical bases; in an eigenbasis of H the Hamiltonian of the used object
+            carries the rounding noise of earlier context round trips).
 
 Every returned matrix is read back at depth 0 (site basis), so what is compared is the
 physical operator.  Oracles (reference model mc/refmodels/boltzmann.py, log space):
@@ -130,6 +153,41 @@ CTXS = ["out", "inH", "inX", "inXH", "inHX", "inXc", "inXcH", "inHXc"]
 E0_ALL = [0.0, 150.0, -300.0]     # ground-state energy offset given to EVERY molecule (1/cm)
 
 
+# prior operations on the same aggregate object (section *_history), see _do_op
+HIST_OPS = ["diag", "dm_thermal", "dm_tes_weak", "dm_tes_strong", "dm_impulsive", "rdm", "abs",
+            "rt_redfield", "rt_foerster", "rt_combined", "rebuild"]
+HIST_SYS_QUICK = ["dim_g100_J100", "trimer_chain", "dim_mode2"]
+HIST_SYS_THOROUGH = HIST_SYS_QUICK + ["trimer_full", "dim_g100_J100_m2"]
+RT_CUTOFF = 75.0       # 1/cm, coupling cutoff of the combined Redfield-Foerster tensor
+
+
+def _op_supported(op, sysname, bath):
+    """Operations the library supports for the system (observed on the unchanged tree: tensors
+    and spectra need a bath; Foerster-type tensors and the strong-coupling equilibrium a purely
+    electronic one-exciton aggregate; thermal_excited_state one band)."""
+    en, J, modes, mult = SYSTEMS[sysname]
+    has_bath = BATHS[bath] is not None
+    if op in ("abs", "rt_redfield"):
+        return has_bath
+    if op in ("rt_foerster", "rt_combined", "dm_tes_strong"):
+        return has_bath and not modes and mult == 1
+    if op == "dm_tes_weak":
+        return mult == 1
+    return True
+
+
+def _histories(depth):
+    h = [[a] for a in HIST_OPS]
+    if depth >= 2:
+        h += [[a, b] for a in HIST_OPS for b in HIST_OPS]
+    return h
+
+
+def _constraint_hist(c):
+    return all(_op_supported(op, c["sys"], c["bath"]) for op in c["hist"]) and \
+        (_constraint(c) if "cond" in c else _constraint_rdm(c))
+
+
 def _constraint(c):
     if c["tsrc"] == "bath" and (c["bath"] == "none" or c["T"] == 0):
         return False            # a bath at T = 0 cannot be constructed (division by zero)
@@ -161,6 +219,11 @@ def cases(tier):
         rdom = {"sys": SYS_QUICK + ["dim_lowE"], "e0": E0_ALL, "bath": ["none", "diff"],
                 "T": T_DESIGN}
         mdom = {"mol": MOL_QUICK, "E0": [0.0, 1000.0] + E0_ALL[1:], "T": T_DESIGN}
+        hdom = {"sys": HIST_SYS_QUICK, "E0": [0.0], "e0": [0.0], "bath": ["diff"],
+                "cond": CONDS, "relham": [False, True], "tsrc": ["arg"], "T": [77],
+                "hist": _histories(1)}
+        hrdom = {"sys": HIST_SYS_QUICK, "e0": [0.0], "bath": ["diff"], "T": [77],
+                 "hist": _histories(1)}
     else:
         dom = {"sys": SYS_THOROUGH, "E0": [0.0, 1000.0, -1000.0, 20000.0], "e0": E0_ALL,
                "bath": ["none", "same", "diff"],
@@ -170,6 +233,11 @@ def cases(tier):
                 "T": sorted(T_DESIGN + T_EXTRA)}
         mdom = {"mol": MOL_THOROUGH, "E0": [0.0, 1000.0, -1000.0, 20000.0] + E0_ALL[1:],
                 "T": sorted(T_DESIGN + T_EXTRA)}
+        hdom = {"sys": HIST_SYS_THOROUGH, "E0": [0.0], "e0": [0.0], "bath": ["none", "diff"],
+                "cond": CONDS, "relham": [False, True], "tsrc": ["arg", "bath"],
+                "T": [0, 2, 77, 300], "hist": _histories(2)}
+        hrdom = {"sys": HIST_SYS_THOROUGH, "e0": [0.0], "bath": ["none", "diff"],
+                 "T": [0, 77, 300], "hist": _histories(2)}
     agg = product(dom, _constraint_quick if tier == "quick" else _constraint)
     for c in agg:
         c["section"] = "aggregate"
@@ -180,7 +248,14 @@ def cases(tier):
     mol = product(mdom)
     for c in mol:
         c["section"] = "molecule"
-    return agg + rdm + mol
+    hag = product(hdom, _constraint_hist)
+    for c in hag:
+        c["section"] = "aggregate_history"
+    hrd = product(hrdom, _constraint_hist)
+    for c in hrd:
+        c["section"] = "aggregate_rdm_history"
+        c["tsrc"] = "bath"
+    return agg + rdm + mol + hag + hrd
 
 
 # ----------------------------------------------------------------------------
@@ -318,6 +393,131 @@ def _check_nondegenerate(case, wv):
 
 class _Skip(Exception):
     pass
+
+
+def _prior_temperature(T):
+    """Temperature of the earlier requests of a history: never the one of the checked request."""
+    return 300.0 if float(T) != 300.0 else 77.0
+
+
+def _do_op(agg, op, case):
+    """One prior operation of a history, performed outside all contexts on the aggregate."""
+    qr = isolation.qr()
+    en, J, modes, mult = SYSTEMS[case["sys"]]
+    Tp = _prior_temperature(case["T"])
+    if op == "diag":
+        agg.diagonalize()
+    elif op == "dm_thermal":
+        agg.get_DensityMatrix(condition_type="thermal", temperature=Tp)
+    elif op == "dm_tes_weak":
+        agg.get_DensityMatrix(condition_type="thermal_excited_state",
+                              relaxation_theory_limit="weak_coupling", temperature=Tp)
+    elif op == "dm_tes_strong":
+        agg.get_DensityMatrix(condition_type="thermal_excited_state",
+                              relaxation_theory_limit="strong_coupling", temperature=Tp)
+    elif op == "dm_impulsive":
+        agg.get_DensityMatrix(condition_type="impulsive_excitation", temperature=Tp)
+    elif op == "rdm":
+        agg.get_thermal_ReducedDensityMatrix()
+    elif op == "abs":
+        calc = qr.AbsSpectrumCalculator(qr.TimeAxis(0.0, 50, 2.0), system=agg)
+        with qr.energy_units("1/cm"):
+            calc.bootstrap(rwa=float(min(en)))
+        calc.calculate()
+    elif op == "rt_redfield":
+        agg.get_RelaxationTensor(qr.TimeAxis(0.0, 50, 2.0), relaxation_theory="standard_Redfield")
+    elif op == "rt_foerster":
+        agg.get_RelaxationTensor(qr.TimeAxis(0.0, 50, 2.0), relaxation_theory="standard_Foerster")
+    elif op == "rt_combined":
+        agg.get_RelaxationTensor(qr.TimeAxis(0.0, 50, 2.0),
+                                 relaxation_theory="combined_RedfieldFoerster",
+                                 coupling_cutoff=RT_CUTOFF * BZ.CM2INT)
+    elif op == "rebuild":
+        agg.rebuild(mult=mult)
+    else:
+        raise isolation.HarnessError("unknown prior operation %r" % (op,))
+    isolation.reset_units()
+
+
+def _apply_history(agg, case, hist):
+    """Perform the history; returns None, or the name of the exception a prior operation raised
+    (then nothing is claimed about the object: the case point is trivial)."""
+    for op in hist:
+        try:
+            _do_op(agg, op, case)
+        except isolation.HarnessError:
+            raise
+        except Exception as e:
+            isolation.reset_units()
+            return "%s:%s" % (op, type(e).__name__)
+    return None
+
+
+def _dm_kwargs(case, Hop):
+    cond = case["cond"]
+    kw = {}
+    if case["tsrc"] == "arg":
+        kw["temperature"] = case["T"]
+    if cond == "thermal":
+        kw["condition_type"] = "thermal"
+    elif cond == "impulsive":
+        kw["condition_type"] = "impulsive_excitation"
+    else:
+        kw["condition_type"] = "thermal_excited_state"
+        kw["relaxation_theory_limit"] = ("weak_coupling" if cond == "tes_weak"
+                                         else "strong_coupling")
+        if case["relham"]:
+            kw["relaxation_hamiltonian"] = Hop
+    return kw
+
+
+_FRESH = {}      # per worker process: (case without its history, context) -> state
+
+
+def _fresh_state(case, ctx, method):
+    """The state an identical, never touched aggregate hands out for the same request in the
+    same context (None if that request raises; the sections without history own that).
+    A deterministic function of the case without its history and of the context: computed
+    once per worker process for all histories of the same point."""
+    key = (method, ctx) + tuple((k, case.get(k)) for k in
+                                ("sys", "E0", "e0", "bath", "T", "tsrc", "cond", "relham"))
+    if key not in _FRESH:
+        _FRESH[key] = _fresh_state_uncached(case, ctx, method)
+    return _FRESH[key]
+
+
+def _fresh_state_uncached(case, ctx, method):
+    isolation.reset_manager()
+    agg, _ = build_aggregate(case)
+    Hop = agg.get_Hamiltonian()
+    H0 = numpy.real(numpy.array(Hop.data, dtype=complex))
+    H0 = 0.5 * (H0 + H0.T)
+    start = int(agg.Nb[0])
+    Xmat = _other_operator(H0, start)
+    Xcmat = _other_operator(H0, start, cplx=True)
+    if method == "dm":
+        kw = _dm_kwargs(case, Hop)
+        fn = lambda: agg.get_DensityMatrix(**kw)
+    else:
+        fn = lambda: agg.get_thermal_ReducedDensityMatrix()
+    try:
+        return _request(ctx, fn, Hop, Xmat, Xcmat)
+    except isolation.HarnessError:
+        raise
+    except Exception:
+        return None
+
+
+def _check_history(acc, tag, hist, rho, fresh, T, condn, ambiguous):
+    if fresh is None or fresh.shape != rho.shape or ambiguous:
+        return
+    dev = float(numpy.max(numpy.abs(rho - fresh)))
+    acc.seen("history_vs_fresh", dev)
+    if dev > TOL_R + numpy.expm1(condn):
+        acc.add("history/%s/differs-from-fresh-aggregate" % tag,
+                "T=%g: after %s on the same aggregate the handed-out state differs from the "
+                "one an identical fresh aggregate hands out for the same request by %.3g"
+                % (T, " then ".join(hist), dev))
 
 
 def _request(ctx, fn, Hop, Xmat, Xcmat=None):
@@ -484,7 +684,7 @@ UNSUPPORTED = ("strong-coupling equilibrium without relaxation_hamiltonian needs
 def eval_case(case):
     if case.get("section") == "molecule":
         return _eval_molecule(case)
-    if case.get("section") == "aggregate_rdm":
+    if case.get("section") in ("aggregate_rdm", "aggregate_rdm_history"):
         return _eval_aggregate_rdm(case)
     return _eval_aggregate(case)
 
@@ -498,7 +698,11 @@ def _eval_aggregate(case):
     refused = 0
     band_n = None
     ambiguous = False    # T = 0 with a degenerate lowest level: the state is not unique
+    hist = list(case.get("hist") or [])
+    ctag = cond if not hist else "after-%s/%s" % ("+".join(hist), cond)
+    prior_raised = 0
     for ctx in CTXS:
+        fresh = _fresh_state(case, ctx, "dm") if hist else None
         isolation.reset_manager()
         agg, reorgs = build_aggregate(case)
         Hop = agg.get_Hamiltonian()
@@ -520,21 +724,17 @@ def _eval_aggregate(case):
         # basis current at the request (innermost context)
         Breq = {"out": None, "inH": U, "inX": V, "inXH": U, "inHX": V,
                 "inXc": Vc, "inXcH": U, "inHXc": Vc}[ctx]
-        tag = "%s/req-%s" % (cond, ctx)
+        tag = "%s/req-%s" % (ctag, ctx)
 
-        kw = {}
-        if case["tsrc"] == "arg":
-            kw["temperature"] = case["T"]
-        if cond == "thermal":
-            kw["condition_type"] = "thermal"
-        elif cond == "impulsive":
-            kw["condition_type"] = "impulsive_excitation"
-        else:
-            kw["condition_type"] = "thermal_excited_state"
-            kw["relaxation_theory_limit"] = ("weak_coupling" if cond == "tes_weak"
-                                             else "strong_coupling")
-            if case["relham"]:
-                kw["relaxation_hamiltonian"] = Hop
+        if hist:
+            # the reference above was built from the Hamiltonian BEFORE the history
+            err = _apply_history(agg, case, hist)
+            if err is not None:
+                prior_raised += 1
+                outcome.append("prior-raised:" + err)
+                continue
+            Hop = agg.get_Hamiltonian()      # (rebuild makes a new operator)
+        kw = _dm_kwargs(case, Hop)
         unsupported = (cond == "tes_strong" and not case["relham"]
                        and (reorgs is None or bool(modes) or mult != 1))
         try:
@@ -550,7 +750,7 @@ def _eval_aggregate(case):
             if cached is not None and not numpy.all(numpy.isfinite(numpy.asarray(cached))):
                 # the context of the request is irrelevant for this failure: one key per
                 # condition (the first failing context is named in the text)
-                acc.add("finite/%s/nan-then-raise" % cond,
+                acc.add("finite/%s/nan-then-raise" % ctag,
                         "T=%g (requested %s): populations are NaN (Boltzmann factors under/"
                         "overflow to 0/0 or inf/inf), DensityMatrix constructor raises: %s"
                         % (T, ctx, str(e)[:80]),
@@ -594,6 +794,13 @@ def _eval_aggregate(case):
         if not _check_valid(acc, rho, tag, need_trace=(cond != "impulsive")):
             continue
         if cond == "impulsive":
+            # The impulsive state is built from |d_ab| in the basis of the request, so inside a
+            # context it depends on the arbitrary signs of that basis' vectors; an eigenbasis of
+            # H after a history (H went through a context and back: rounding noise) may come
+            # with other signs than on the fresh object.  Compared only where the basis of the
+            # request is bit-identical on both objects: outside, and in the eigenbasis of X.
+            if hist and ctx in ("out", "inX", "inXc"):
+                _check_history(acc, tag, hist, rho, fresh, T, condn, False)
             continue
         states[ctx] = rho
         if cond == "thermal":
@@ -604,6 +811,8 @@ def _eval_aggregate(case):
             rb = ra if ctx in ("inH", "inXH", "inXcH") else \
                 _boltzmann_in_basis(rho, H0, U, 0, T, cond_slack=slack)
             best = ra if (ra["ok"] or not rb["ok"]) else rb
+            if hist:
+                _check_history(acc, tag, hist, rho, fresh, T, condn, best["degenerate_T0"])
             acc.seen("structure", best["structure"])
             acc.seen("ratio_excess", best["ratio_excess"])
             acc.seen("ratio_abs", best["ratio_abs"])
@@ -632,6 +841,8 @@ def _eval_aggregate(case):
         r = _boltzmann_in_basis(rho, H0, Bdef, start, T, subtract=sub,
                                 cond_slack=_cond_slack(ctx, condn))
         ambiguous = ambiguous or r["degenerate_T0"]
+        if hist:
+            _check_history(acc, tag, hist, rho, fresh, T, condn, r["degenerate_T0"])
         if r["ok"]:
             acc.seen("structure", r["structure"])
             acc.seen("ratio_excess", r["ratio_excess"])
@@ -681,21 +892,23 @@ def _eval_aggregate(case):
             if ctx not in states:
                 continue
             dev = float(numpy.max(numpy.abs(states[ctx] - states["out"])))
-            explained = any(k.startswith("basis/%s/" % cond) or k.startswith("boltzmann/%s/" % cond)
+            explained = any(k.startswith("basis/%s/" % ctag) or k.startswith("boltzmann/%s/" % ctag)
                             for k in acc.keys)
             if not explained:
                 acc.seen("same_state", dev)
             if dev > TOL_R + numpy.expm1(condn) and not explained:
-                acc.add("same-state/%s/req-%s-vs-out" % (cond, ctx),
+                acc.add("same-state/%s/req-%s-vs-out" % (ctag, ctx),
                         "T=%g state requested inside (%s) differs from the one requested "
                         "outside by %.3g" % (T, ctx, dev))
     excited = any(isinstance(o, list) and max(abs(x) for x in o[0]) > 0 for o in outcome)
-    nontrivial = (refused < len(CTXS)) and (
+    nontrivial = (refused + prior_raised < len(CTXS)) and (
         (cond == "impulsive" and excited) or (cond != "impulsive" and T > 0 and band_n is not None and
                                   (band_n >= 2 if cond != "thermal" else True)))
-    return {"nontrivial": bool(nontrivial), "outcome": [cond, case["sys"], T, outcome],
-            "violations": acc.v, "n": len(CTXS) - 1,
-            "info": {"worst": acc.worst, "refused": refused}}
+    return {"nontrivial": bool(nontrivial),
+            "outcome": [cond, case["sys"], T, outcome] if not hist else
+                       [cond, case["sys"], T, hist, outcome],
+            "violations": acc.v, "n": (2 if hist else 1) * len(CTXS) - 1,
+            "info": {"worst": acc.worst, "refused": refused, "prior_raised": prior_raised}}
 
 
 def _eval_aggregate_rdm(case):
@@ -706,7 +919,11 @@ def _eval_aggregate_rdm(case):
     outcome = []
     states = {}
     ambiguous = False
+    hist = list(case.get("hist") or [])
+    rtag = "aggregate-rdm" if not hist else "after-%s/aggregate-rdm" % "+".join(hist)
+    prior_raised = 0
     for ctx in CTXS:
+        fresh = _fresh_state(case, ctx, "rdm") if hist else None
         isolation.reset_manager()
         agg, reorgs = build_aggregate(case)
         Hop = agg.get_Hamiltonian()
@@ -720,10 +937,18 @@ def _eval_aggregate_rdm(case):
         Xcmat = _other_operator(H0, start, cplx=True)
         _check_nondegenerate(case, numpy.linalg.eigvalsh(Xmat))
         _check_nondegenerate(case, numpy.linalg.eigvalsh(Xcmat))
-        tag = "aggregate-rdm/req-%s" % ctx
+        tag = "%s/req-%s" % (rtag, ctx)
         Tlib = float(agg.get_temperature())
         if Tlib != T:
             raise isolation.HarnessError("bath temperature %r, wanted %r: %r" % (Tlib, T, case))
+        if hist:
+            # the reference above was built from the Hamiltonian BEFORE the history
+            err = _apply_history(agg, case, hist)
+            if err is not None:
+                prior_raised += 1
+                outcome.append("prior-raised:" + err)
+                continue
+            Hop = agg.get_Hamiltonian()      # (rebuild makes a new operator)
         try:
             rho = _request(ctx, lambda: agg.get_thermal_ReducedDensityMatrix(), Hop, Xmat, Xcmat)
         except isolation.HarnessError:
@@ -738,7 +963,7 @@ def _eval_aggregate_rdm(case):
                     naive = not numpy.all(numpy.isfinite(f / numpy.sum(f)))
             if naive:
                 # the context of the request is irrelevant for this failure: one key per case
-                acc.add("finite/aggregate-rdm/nan-then-raise",
+                acc.add("finite/%s/nan-then-raise" % rtag,
                         "T=%g, lowest eigenvalue of H %.6g 1/cm (requested %s): Boltzmann "
                         "factors of the absolute energies under/overflow (0/0 or inf/inf), the "
                         "state is NaN and the constructor raises: %s"
@@ -758,6 +983,8 @@ def _eval_aggregate_rdm(case):
         states[ctx] = rho
         r = _boltzmann_in_basis(rho, H0, U, 0, T, cond_slack=_cond_slack(ctx, condn))
         ambiguous = ambiguous or r["degenerate_T0"]
+        if hist:
+            _check_history(acc, tag, hist, rho, fresh, T, condn, r["degenerate_T0"])
         acc.seen("structure", r["structure"])
         acc.seen("ratio_excess", r["ratio_excess"])
         acc.seen("ratio_abs", r["ratio_abs"])
@@ -777,13 +1004,15 @@ def _eval_aggregate_rdm(case):
                 dev = float(numpy.max(numpy.abs(states[ctx] - states["out"])))
                 acc.seen("same_state", dev)
                 if dev > TOL_R + numpy.expm1(condn) and \
-                        not any(k.startswith("boltzmann/aggregate-rdm") for k in acc.keys):
-                    acc.add("same-state/aggregate-rdm/req-%s-vs-out" % ctx,
+                        not any(k.startswith("boltzmann/%s" % rtag) for k in acc.keys):
+                    acc.add("same-state/%s/req-%s-vs-out" % (rtag, ctx),
                             "T=%g state requested inside (%s) differs from outside by %.3g"
                             % (T, ctx, dev))
-    return {"nontrivial": bool(T > 0),
-            "outcome": ["aggregate-rdm", case["sys"], case["e0"], T, outcome],
-            "violations": acc.v, "n": len(CTXS) - 1, "info": {"worst": acc.worst, "refused": 0}}
+    return {"nontrivial": bool(T > 0) and prior_raised < len(CTXS),
+            "outcome": ["aggregate-rdm", case["sys"], case["e0"], T, outcome] if not hist else
+                       ["aggregate-rdm", case["sys"], case["e0"], T, hist, outcome],
+            "violations": acc.v, "n": (2 if hist else 1) * len(CTXS) - 1,
+            "info": {"worst": acc.worst, "refused": 0, "prior_raised": prior_raised}}
 
 
 def _eval_molecule(case):
@@ -864,6 +1093,10 @@ def _merge(infos):
     return worst, refused
 
 
+def _prior_raised(infos):
+    return sum(i.get("prior_raised", 0) for i in infos)
+
+
 def run(run):
     run.rule = ("full product system x ground-state energy of molecule 0 x ground-state offset "
                 "of every molecule x bath x condition x relaxation_hamiltonian x temperature "
@@ -873,6 +1106,11 @@ def run(run):
                 "molecule x ground-state energy x temperature (molecules); each point requested "
                 "outside, inside eigenbasis_of(H), inside eigenbasis_of(X), nested X/H and H/X, "
                 "each X-containing context with a real symmetric and with a complex Hermitian X; "
+                "sections *_history: system x bath x temperature x temperature source x "
+                "condition (resp. get_thermal_ReducedDensityMatrix) x relaxation_hamiltonian x "
+                "ALL histories of prior operations on the same aggregate up to the tier's length "
+                "(quick 1, thorough 2; alphabet HIST_OPS restricted to what the library supports "
+                "for the system) x the same request contexts; "
                 "non-trivial = "
                 "T > 0 and (>= 2 levels in the excited band for thermal_excited_state) or a "
                 "non-zero impulsive excitation; refused (unsupported) requests are trivial")
@@ -895,23 +1133,39 @@ def run(run):
         "context operators X (real symmetric and complex Hermitian) are H plus a fixed "
         "perturbation inside the excited bands, with a non-degenerate spectrum (verified per "
         "case), so that the basis of a context is fixed up to phases",
+        "histories: every prior operation is performed outside all contexts; earlier requests "
+        "of a history use another temperature than the checked one; a prior operation that "
+        "raises ends the case point without a claim (counted in the notes; none on the "
+        "unchanged tree); the reference Hamiltonian is the one read right after build()",
     ]
     allc = cases(run.tier)
     agg = [c for c in allc if c["section"] == "aggregate"]
     rdm = [c for c in allc if c["section"] == "aggregate_rdm"]
     mol = [c for c in allc if c["section"] == "molecule"]
+    hag = [c for c in allc if c["section"] == "aggregate_history"]
+    hrd = [c for c in allc if c["section"] == "aggregate_rdm_history"]
     run.bounds = {"temperatures": sorted(set(c["T"] for c in agg)),
                   "systems": SYS_QUICK if run.tier == "quick" else SYS_THOROUGH,
                   "molecules": MOL_QUICK if run.tier == "quick" else MOL_THOROUGH,
                   "E0": sorted(set(c["E0"] for c in agg)),
                   "e0_every_molecule": E0_ALL, "contexts": CTXS,
+                  "history_operations": HIST_OPS,
+                  "history_length": max(len(c["hist"]) for c in hag),
+                  "history_systems": sorted(set(c["sys"] for c in hag)),
+                  "history_temperatures": sorted(set(c["T"] for c in hag)),
                   "tolerances": {"R": TOL_R, "psd": TOL_PSD, "kB_rel": BZ.KB_REL,
                                  "ratio_rtol_log": 1e-9}}
     i1 = run_grid(run, agg, eval_case, section="aggregate")
     i3 = run_grid(run, rdm, eval_case, section="aggregate_rdm")
     i2 = run_grid(run, mol, eval_case, section="molecule")
+    i4 = run_grid(run, hag, eval_case, section="aggregate_history")
+    i5 = run_grid(run, hrd, eval_case, section="aggregate_rdm_history")
     w1, r1 = _merge(i1)
     w2, r2 = _merge(i2)
     w3, r3 = _merge(i3)
+    w4, r4 = _merge(i4)
+    w5, r5 = _merge(i5)
     run.note(worst_aggregate=w1, worst_aggregate_rdm=w3, worst_molecule=w2,
-             refused_requests=r1 + r2 + r3)
+             worst_aggregate_history=w4, worst_aggregate_rdm_history=w5,
+             refused_requests=r1 + r2 + r3, refused_requests_history=r4 + r5,
+             history_requests_after_a_raising_prior_operation=_prior_raised(i4) + _prior_raised(i5))
